@@ -11,10 +11,11 @@ rows.sort()
 out = ['| property | round | change | needs to manifest | result |', '|----------|-------|--------|-------------------|--------|']
 for r in rows:
     out.append('| %s | %s | %s | %s | %s |' % tuple(x.replace('|', '/') for x in r))
-missed = sum(1 for r in rows if r[4].startswith('missed'))
+missed = sum(1 for r in rows if r[4].startswith('missed') or r[4].startswith('observed'))
+undetected = sum(1 for r in rows if r[4].startswith('not detected'))
 out.append('')
-out.append('%d changes (%d in round 1, %d in later rounds); %d were caught by the checks as they stood, %d were missed at first and led to a strengthening listed in the result column. All %d are now caught by the *quick* tier.' % (
-    len(rows), sum(1 for r in rows if r[1] == '1'), sum(1 for r in rows if r[1] != '1'), len(rows) - missed, missed, len(rows)))
+out.append('%d changes (%d in round 1, %d in later rounds); %d were caught by the checks as they stood, %d were missed at first and led to a strengthening listed in the result column. %d are now caught by the *quick* tier; %d are deliberately not judged (see their result column).' % (
+    len(rows), sum(1 for r in rows if r[1] == '1'), sum(1 for r in rows if r[1] != '1'), len(rows) - missed - undetected, missed, len(rows) - undetected, undetected))
 p = '/verif/DESIGN.md'
 s = open(p).read()
 a, b = '<!-- SEED-TABLE-BEGIN -->', '<!-- SEED-TABLE-END -->'
